@@ -7,6 +7,11 @@ func init() {
 
 // genC15: histories cut short by every teardown cause, optionally during a slow callback.
 func genC15(p *Plan, r *RNG) {
+	if r.Chance(1, 8) {
+		genRaceExpiry(p, r)
+		p.Flavor = "teardown:" + p.Flavor
+		return
+	}
 	if r.Chance(1, 4) {
 		// TCP allocations: peer connections and data connections are owned resources too
 		genC16(p, r)
